@@ -419,6 +419,8 @@ func allChecks() []CheckSpec {
 				{Fn: "verifC04DeadlineRearm", Lemma: "the initial checking deadline counts from entering Checking, and again from the Restart that re-enters it: through the real connectivityChecks loop (its closure state included) an agent without a pair fails once disconnected+failed has elapsed, Restart returns it to Checking, the next ticks leave it Checking until a full deadline has elapsed once more, then it fails again",
 					Bounds: "deadline 100 ms + 100 ms, clock advanced by 300 / 120 / 150 ms between harness-driven ticks (engine: symbolic clock jumps; native replay: real sleeps), one Restart", MustReach: []string{"failed-on-deadline", "done"},
 					Cfg: func(c *HarnessCfg, tier int) { c.GoPolicy = "queue" }},
+				{Fn: "verifC04FailedIsTerminal", Lemma: "Failed is left only through Restart or Close: a gathering cycle that was running when the agent failed hands its host candidate over afterwards, the peer trickles a candidate and nominates the pair with authenticated messages: the failed agent takes no candidate and stays Failed",
+					Bounds: "controlled full agent, one late host candidate, one trickled remote candidate, one nominating request and the matched response of the triggered check", MustReach: []string{"late-candidate-refused", "done"}},
 				{Fn: "verifC04Tick", Lemma: "1..2 check ticks through the real connectivityChecks loop: every notified transition is an edge of the lifecycle graph without repeats, Connected/Disconnected only with a selected pair, a tick while Failed changes nothing, Checking->Failed only with a deadline, Failed releases everything",
 					Bounds: "start states Checking/Connected/Disconnected/Failed, timeouts {default, 0, 1 ns}, silence 1 ms..1 min, 1..2 ticks, both roles", MustReach: []string{"failed-stays", "checking->failed", "->failed", "done"}},
 				{Fn: "verifC04Update", Lemma: "updateConnectionState: exactly one notification carrying the new state iff it changed; the Failed notification is enqueued after the release",
